@@ -93,6 +93,13 @@ type Axiom struct {
 	Text string
 	File string
 	Line int
+	// State: a "state_axiom": a statement about objects in memory (written with
+	// allocated(x)) that is assumed for the entry state, for the objects a
+	// callee under contract allocated (in the state after that call), and for
+	// the state at each return - not only once at entry. Meant for denotations
+	// of immutable linked structures (a heap-independent abstract function tied
+	// to the fields of the node it is applied to).
+	State bool
 }
 
 // Lemma is a closed formula over spec functions and axioms that is proved on
@@ -164,7 +171,7 @@ func NewSpecFile() *SpecFile {
 }
 
 var clauseKeywords = map[string]bool{"requires": true, "ensures": true, "invariant": true, "decreases": true,
-	"assigns": true, "preserves": true, "guard": true, "order": true, "reads_fields": true, "control_only": true, "feeds_unchanged": true, "returns_fresh": true, "no_store_through": true, "loop": true, "may_panic": true, "dead_return": true, "trusted": true, "pure": true, "abstract": true, "axiom": true,
+	"assigns": true, "preserves": true, "guard": true, "order": true, "reads_fields": true, "control_only": true, "feeds_unchanged": true, "returns_fresh": true, "no_store_through": true, "loop": true, "may_panic": true, "dead_return": true, "state_axiom": true, "trusted": true, "pure": true, "abstract": true, "axiom": true,
 	"func": true, "lemma": true, "noinline": true, "opaque": true, "flag": true, "let": true, "may_panic_at": true, "extends": true, "foreach_field": true, "ghost": true, "assert": true}
 
 // ParseSpecFile reads //@ lines from path and adds them to sf.
@@ -300,7 +307,7 @@ func (sf *SpecFile) ParseSpecFile(path string) error {
 			}
 			sf.Lemmas[strings.TrimSpace(name)] = &Lemma{Name: strings.TrimSpace(name), Expr: e, Text: body, File: path, Line: r.line}
 			cur, curLoop = nil, nil
-		case "axiom":
+		case "axiom", "state_axiom":
 			name, body, ok := strings.Cut(r.text, ":")
 			if !ok || strings.ContainsAny(name, " (") {
 				name, body = fmt.Sprintf("axiom%d", len(sf.Axioms)), r.text
@@ -309,7 +316,7 @@ func (sf *SpecFile) ParseSpecFile(path string) error {
 			if err != nil {
 				return fmt.Errorf("%s: %v", loc, err)
 			}
-			sf.Axioms = append(sf.Axioms, &Axiom{Name: strings.TrimSpace(name), Expr: e, Text: body, File: path, Line: r.line})
+			sf.Axioms = append(sf.Axioms, &Axiom{Name: strings.TrimSpace(name), Expr: e, Text: body, File: path, Line: r.line, State: r.kw == "state_axiom"})
 			cur, curLoop = nil, nil
 		default:
 			if cur == nil {
@@ -1084,15 +1091,28 @@ func (p *sparser) parsePrimary() (SExpr, error) {
 	return nil, fmt.Errorf("unexpected token %q", t.s)
 }
 
-// CheckAlternatives: a function may have several contracts only if every one of
-// them is restricted to the verification of particular functions.
+// CheckAlternatives: a function may have several contracts only if all of them
+// but at most one are restricted to the verification of particular functions
+// (only_for); the unrestricted one - the contract the function itself is
+// verified against - becomes the primary contract.
 func (sf *SpecFile) CheckAlternatives() error {
 	for name, alts := range sf.Alt {
 		all := append([]*FuncSpec{sf.Funcs[name]}, alts...)
+		var open *FuncSpec
+		var restricted []*FuncSpec
 		for _, a := range all {
 			if a.Flags["only_for"] == "" {
-				return fmt.Errorf("%s:%d: duplicate contract for %s (several contracts for one function need 'flag only_for=...' on each)", a.File, a.Line, name)
+				if open != nil {
+					return fmt.Errorf("%s:%d: duplicate contract for %s (several contracts for one function need 'flag only_for=...' on all but one)", a.File, a.Line, name)
+				}
+				open = a
+			} else {
+				restricted = append(restricted, a)
 			}
+		}
+		if open != nil {
+			sf.Funcs[name] = open
+			sf.Alt[name] = restricted
 		}
 	}
 	return nil
